@@ -6,15 +6,17 @@ ids=${@:-$(python3 -c "import json; print(' '.join(c['property_id'] for c in jso
 rc=0
 for p in $ids; do
   s=$(date +%s)
-  ./run.sh $p $tier > /tmp/runall_$p.log 2>&1; r=$?
+  LOG=${TMPDIR:-/tmp}/runall_$$_$p.log
+  ./run.sh $p $tier > $LOG 2>&1; r=$?
   e=$(( $(date +%s) - s ))
   v=$(python3-vt -c "
 import json, jsonschema, sys
 try:
     jsonschema.validate(json.load(open('evidence/$p.json')), json.load(open('/root/.vp/EVIDENCE.schema.json'))); print('evidence-ok')
 except Exception as ex: print('EVIDENCE-INVALID', str(ex)[:100])")
-  echo "$p exit=$r ${e}s $v :: $(tail -n 1 /tmp/runall_$p.log | cut -c1-160)"
-  grep -E "VIOLATION|HARNESS-ERROR|INCONCLUSIVE|KNOWN-FINDING" /tmp/runall_$p.log | head -5 | cut -c1-200
+  echo "$p exit=$r ${e}s $v :: $(tail -n 1 $LOG | cut -c1-160)"
+  grep -E "VIOLATION|HARNESS-ERROR|INCONCLUSIVE|KNOWN-FINDING" $LOG | head -5 | cut -c1-200
+  [ $r -eq 0 ] && rm -f $LOG
   [ $r -ne 0 ] && rc=1
 done
 exit $rc
